@@ -247,6 +247,8 @@ class Ctx:
         Returns the indices of the cases on which chk is false (the model disagrees)."""
         if not cases:
             return []
+        if not self.quick():
+            timeout = max(timeout, 7200)          # thorough shards are bigger and often share the machine with other runs
         shards = [cases[i:i + shard] for i in range(0, len(cases), shard)]
         files = []
         for k, sh in enumerate(shards):
